@@ -357,9 +357,23 @@ def gen_errors(src: Path):
             raise Untranslatable("no `msg = f\"...\"` in _process_response")
         err_text = _str_expr(text_expr, {"__ints__": {"code": "code"}, "__optstr__": {"error": ("message", "msg")},
                                           "__strfuncs__": {"get_error_message": "getErrorMessage"}})
-    except (Untranslatable, OSError) as ex:
+        # code = error.get("code", <default>)
+        default_code = None
+        for n in ast.walk(pr):
+            if isinstance(n, ast.Assign) and len(n.targets) == 1 and isinstance(n.targets[0], ast.Name) and n.targets[0].id == "code" \
+                    and isinstance(n.value, ast.Call) and isinstance(n.value.func, ast.Attribute) and n.value.func.attr == "get" \
+                    and len(n.value.args) == 2 and isinstance(n.value.args[0], ast.Constant) and n.value.args[0].value == "code":
+                d = n.value.args[1]
+                if isinstance(d, ast.Name) and d.id in consts:
+                    default_code = consts[d.id]
+                else:
+                    default_code = int(ast.literal_eval(d))
+        if default_code is None:
+            raise Untranslatable("no `code = error.get(\"code\", <default>)` in _process_response")
+    except (Untranslatable, OSError, ValueError) as ex:
         aux_bad.append(f"_process_response text: {ex}")
         err_text = '""'
+        default_code = 0
     report["aux_untranslatable"] = aux_bad
     aux_ok = "true" if not aux_bad else "false"
     table_lean = "[" + ", ".join(f"({k}, {_lean_str(v)})" for k, v in table) + "]"
@@ -408,6 +422,9 @@ def isStandardJsonrpcError (code : Int) : Bool := {aux["isStandardJsonrpcError"]
 
 /-- body of `is_mcp_specific_error` -/
 def isMcpSpecificError (code : Int) : Bool := {aux["isMcpSpecificError"]}
+
+/-- the code `_process_response` assumes for an error object that carries none -/
+def defaultErrorCode : Int := {default_code}
 
 /-- text of the exception `send_message._process_response` raises for an error object with the
 given optional `message` and (defaulted) `code` -/
@@ -604,15 +621,38 @@ def gen_timing(src: Path):
     default_timeout_ms = None
     try:
         sm = ast.parse((src / "protocol/messages/send_message.py").read_text())
+        mconsts = {}
+        for n in sm.body:  # module-level numeric constants (a default may name one)
+            if isinstance(n, (ast.Assign, ast.AnnAssign)):
+                tgt = n.targets[0] if isinstance(n, ast.Assign) and len(n.targets) == 1 else getattr(n, "target", None)
+                if isinstance(tgt, ast.Name) and n.value is not None:
+                    try:
+                        v = ast.literal_eval(n.value)
+                        if isinstance(v, (int, float)) and not isinstance(v, bool):
+                            mconsts[tgt.id] = v
+                    except Exception:
+                        pass
+
+        def num(d):
+            if isinstance(d, ast.Name) and d.id in mconsts:
+                return float(mconsts[d.id])
+            return float(ast.literal_eval(d))
         f = _find_func(sm, "_await_response")
         args = f.args.args
         for a, d in zip(args[len(args) - len(f.args.defaults):], f.args.defaults):
             if a.arg == "sub_timeout":
-                sub_ms = int(round(float(ast.literal_eval(d)) * 1000))
+                sub_ms = int(round(num(d) * 1000))
+        for a, d in zip(f.args.kwonlyargs, f.args.kw_defaults):
+            if a.arg == "sub_timeout" and d is not None:
+                sub_ms = int(round(num(d) * 1000))
         g = _find_func(sm, "send_message")
         for a, d in zip(g.args.kwonlyargs, g.args.kw_defaults):
             if a.arg == "timeout" and d is not None:
-                default_timeout_ms = int(round(float(ast.literal_eval(d)) * 1000))
+                default_timeout_ms = int(round(num(d) * 1000))
+        gargs = g.args.args
+        for a, d in zip(gargs[len(gargs) - len(g.args.defaults):], g.args.defaults):
+            if a.arg == "timeout":
+                default_timeout_ms = int(round(num(d) * 1000))
     except Exception as ex:  # noqa
         report["untranslatable"].append(f"send_message.py: {ex}")
     if sub_ms is None or sub_ms <= 0:
